@@ -4,7 +4,7 @@ NOTES = ("All checks: ./check <id> --tier quick|thorough; setup builds the Coq d
          "and compiles the driver. known_findings.json lists recorded defects (kind known) and repaired ones (kind fixed).")
 NOT_APPLICABLE = {}
 # built, but their fix stage is in progress (model already in the repaired state, patches not yet committed to /repo)
-PENDING = {"C01", "C02", "C04", "C07", "C10", "C12", "C14"}
+PENDING = {"C01", "C02", "C04", "C07", "C10", "C11", "C12", "C14"}
 COMMON_NOTE = ("Trusted: Coq 8.16.1 kernel (+vm_compute), extraction (ExtrOcamlBasic, ExtrOcamlString), OCaml driver, the Python harness, "
                "CPython/torch as referents. Theorems are about the hand-written model; the model<->code tie is this run's differential "
                "correspondence, bounded by its generators (distribution in the evidence). ")
@@ -138,6 +138,21 @@ CHECKS = {
                  "in a forked and in a spawned child."),
         "note": COMMON_NOTE + "share_non_tensor, jagged nested tensors and existsok=False are not covered. Known findings in findings.d/C10.json.",
         "technique": "Coq theorems (codec round trip by tree induction; order-freedom by induction over Permutation) + permuting-executor and process-level differential runs",
+    },
+    "C11": {
+        "text": ("Proof (Coq): for ALL leaf lists the consolidated layout (n = elsize*numel, padding, start/stop/pad records) is consecutive, disjoint and "
+                 "covers [0,total); decode(encode) over a byte storage returns every leaf exactly when its record is aligned (alignment proved for the "
+                 "supported element sizes); on trees of ANY depth `consolidate` keeps keys, order, tensors, non-tensor data, batch sizes, names and "
+                 "device, and the consolidated rebuild of (metadata, storage) is the tree itself (regrouped keys proved lookup-equivalent). For EVERY "
+                 "history: without consolidate, pickle/deepcopy return the object (lock-closedness invariant under all steps); after consolidate, "
+                 "any sequence of in-place writes at any depth is preserved (write-through = re-encoding). to_dict/from_dict, pytree and "
+                 "state_dict/load_state_dict round trips are proved for exactly the fields each format carries. Refutation theorems for the "
+                 "recorded defects. Tie: extracted model vs implementation on layout records, storage bytes, view offsets, step outcomes, the "
+                 "live object and the pickled copy for ~1.1k (quick) / ~31k (thorough) histories plus an exhaustive (element size x shape) grid; "
+                 "oracle: decode(encode(td)) vs td bitwise for 9 formats x 4 history profiles, plus fork/spawn transport."),
+        "note": COMMON_NOTE + "Byte copies, pickling of storages and the process transport are torch's/CPython's. Lazy stacks, jagged tensors, tensorclasses, "
+                "threaded consolidation and use_buffer are judged by the oracle only. Known findings in findings.d/C11.json.",
+        "technique": "Coq theorems (list/arith induction for the layout; tree/forest induction for the rebuild; invariants over op lists for histories) + differential + per-format round-trip oracle",
     },
     "C12": {
         "text": ("Proof (Coq, partial): for EVERY n, chunksize, num_chunks, worker count, generator / shuffle mode, `_split_tensordict` yields "
